@@ -47,6 +47,8 @@ def run(chk, F):
     chk.guard("persist-gates", "download_to_file", lambda: download(chk, F))
     chk.guard("cache-writers", "cli", lambda: writers(chk, F))
     chk.guard("fallback", "cached/load", lambda: fallback(chk, F))
+    import c18
+    chk.guard("child-stdout", "RinkService", lambda: c18.child_stdout(chk, F))
 
 
 def download(chk, F):
